@@ -337,6 +337,17 @@ func TestVerif_C05(t *testing.T) {
 					c05Run(r, l, c, entry, "origin-twice")
 					nontrivial(l, c, entry)
 				}
+				if ei == 0 || ei == 3 {
+					// next to every pattern of the tables that covers it / is covered by it, in both orders
+					for _, rel := range relatedOriginAtoms(a, allValidKindOriginAtoms()) {
+						for _, lst := range [][]OAtom{{rel, a}, {a, rel}, {rel, filler, a}} {
+							c := base()
+							c.Origins = lst
+							c05Run(r, l, c, entry, "origin-next-to-related")
+							nontrivial(l, c, entry)
+						}
+					}
+				}
 			}
 			for _, a := range allMethods {
 				c := base()
